@@ -1,0 +1,79 @@
+//go:build verif
+
+package mvs
+
+// Contracts for the verification machinery in /verif (comment-only file;
+// excluded from every build without the "verif" tag).
+
+// ---- C14: the selected version of a path is the maximum required version ----
+
+// the comparison function given to NewGraph is a total preorder on version
+// strings (buildList builds it from reqs.Max, which delegates to semver.Compare,
+// verified under internal/mod/semver)
+//@ spec func vcmp(a string, b string) int
+//@ axiom vcmp_total: forall a, b string :: {vcmp(a, b)} -1 <= vcmp(a, b) && vcmp(a, b) <= 1 && vcmp(a, b) == 0 - vcmp(b, a) && vcmp(a, a) == 0
+//@ axiom vcmp_trans: forall a, b, c string :: {vcmp(a, b), vcmp(b, c)} vcmp(a, b) <= 0 && vcmp(b, c) <= 0 ==> vcmp(a, c) <= 0
+//@ axiom vcmp_trans2: forall a, b, c string :: {vcmp(b, a), vcmp(b, c)} vcmp(b, a) >= 0 && vcmp(b, c) <= 0 ==> vcmp(c, a) >= 0
+
+//@ func graphCmp
+//@   assumed A-int: the cmp closure of buildList; precondition of NewGraph (total preorder)
+//@   pure
+//@   ensures result == vcmp(v1, v2)
+
+//@ func (Versions).Path
+//@   assumed A-int: pure accessor of the module version type
+//@   pure
+//@ func (Versions).Version
+//@   assumed A-int: pure accessor of the module version type
+//@   pure
+
+//@ func slices.Clip
+//@   assumed A-ext slices.Clip: same elements, capacity cut to the length
+//@   ensures baseOf(result) == baseOf(s) && len(result) == len(s) && (forall k int :: 0 <= k && k < len(s) ==> result[k] == s[k])
+
+// selected version of a path, "none" when absent
+//@ spec func sel(g *Graph, p string) string { ite(inDom(g.selected, p), g.selected[p], "none") }
+
+//@ func (*Graph).Selected
+//@   strings abstract
+//@   requires g != nil
+//@   ensures version == sel(g, path)
+
+// (P) C14: after Require(m, reqs) the selected version of every path is at least
+// as high as before and as every requirement on it (sufficient), and it is either
+// unchanged or exactly the version of one of the requirements (minimal: nothing
+// higher than what is required).
+//@ func (*Graph).Require
+//@   strings abstract
+//@   may_panic
+//@   callsite g.cmp contract graphCmp
+//@   callsite dynamic#0 contract upgradeEffect
+//@   requires g != nil && g.selected != nil && g.isRoot != nil && g.required != nil
+//@   loop 0 invariant -1 <= rangeindex && rangeindex < len(reqs) && g.selected != nil && g.isRoot != nil
+//@   loop 0 invariant forall p string :: vcmp(sel(g, p), old(sel(g, p))) >= 0
+//@   loop 0 invariant forall j int :: 0 <= j && j <= rangeindex ==> vcmp(sel(g, g.v.Path(reqs[j])), g.v.Version(reqs[j])) >= 0
+//@   loop 0 invariant forall p string :: sel(g, p) == old(sel(g, p)) || exists j int :: 0 <= j && j <= rangeindex && g.v.Path(reqs[j]) == p && sel(g, p) == g.v.Version(reqs[j])
+//@   ensures [monotone] forall p string :: vcmp(sel(g, p), old(sel(g, p))) >= 0
+//@   ensures [sufficient] forall j int :: 0 <= j && j < len(reqs) ==> vcmp(sel(g, g.v.Path(reqs[j])), g.v.Version(reqs[j])) >= 0
+//@   ensures [minimal] forall p string :: sel(g, p) == old(sel(g, p)) || exists j int :: 0 <= j && j < len(reqs) && g.v.Path(reqs[j]) == p && sel(g, p) == g.v.Version(reqs[j])
+//@   assigns heap
+
+// the worker of buildList: every requirement of a visited module is handed to
+// the work set (so that its own requirements are fetched too)
+//@ func (Reqs).Required
+//@   assumed A-int: the requirement callback (registry access); it does not touch the graph under construction
+//@ func (Reqs).Version
+//@   assumed A-int: pure accessor
+//@   pure
+//@ func upgradeEffect
+//@   assumed A-int: the upgrade callback; it does not touch the graph under construction
+
+//@ func buildList$2
+//@   strings abstract
+//@   may_panic
+//@   nocheck frame
+//@   callsite dynamic#0 contract upgradeEffect
+//@   requires g != nil && g.selected != nil && g.isRoot != nil && g.required != nil
+//@   loop 0 assume !isQueueArray(baseOf(required))
+//@   loop 0 invariant -1 <= rangeindex && rangeindex < len(required) && forall k int :: 0 <= k && k <= rangeindex ==> inDom(work.added, required[k]) && work.added[required[k]]
+//@   assigns heap
